@@ -41,3 +41,17 @@ class Obj:
 
 def describe_exc(e) -> str:
     return f"{type(e).__name__}({getattr(e, 'tag', e)!r})"
+
+
+class InjectedGeneratorExit(GeneratorExit):
+    """GeneratorExit injected by the harness (a scope inside an async generator that is closed early)."""
+
+    def __init__(self, tag):
+        super().__init__(tag)
+        self.tag = tag
+
+
+class InjectedRuntime(RuntimeError):
+    def __init__(self, tag):
+        super().__init__(tag)
+        self.tag = tag
